@@ -44,7 +44,7 @@ Definition t_c_new (records : list (string * value)) : cstate value := c_new fcl
 Definition t4_model_c ty resw i e records before ro after :=
   let '(s1, _) := run (t_impl_step i) (t_c_new records) (map (to_tcop ty resw) before) in
   let '(s2, outs) := run (t_impl_step i) s1 (map (to_tcop ty resw) after) in
-  (pull_collection tr_filter (option_map (interp_teqv ty) e) s1 (to_tropts ty ro) (flat_map snd outs), s2).
+  (pull_collection_held tr_filter (option_map (interp_teqv ty) e) s1 (to_tropts ty ro) (flat_map snd outs), s2).
 Definition t4_model_v ty resw initial e before ro after :=
   let '(s1, _) := v_run t_v_impl_step (v_init fclock initial) (map (to_tvop ty resw) before) in
   let '(s2, outs) := v_run t_v_impl_step s1 (map (to_tvop ty resw) after) in
@@ -196,7 +196,12 @@ Definition C04T_ok (c : t4case) : bool :=
       (match e with
        | None | Some TEqAll =>
            if tro_updates_only ro then true else t_same_map (fold_view (map t_to_cc stream)) final
-       | Some _ => true
+       | Some ev =>
+           (* fold = List up to the equivalence, id by id (an item is in the one iff in the other) *)
+           if tro_updates_only ro then true
+           else let fv := fold_view (map t_to_cc stream) in
+                forallb (fun id => interp_teqv ty ev (tview_lookup id fv) (tview_lookup id final))
+                        (map fst fv ++ map fst final)
        end)
   | T4V ty resw initial e before ro after codes results stream final =>
       let seeds := filter tov_seed stream in
